@@ -133,7 +133,8 @@ def stats (vm : VM) : String :=
   let wp := count vm (fun | .wakeParent _ => true | _ => false)
   let re := count vm (fun | .retry _ => true | _ => false)
   let fi := count vm (fun | .finish _ => true | _ => false)
-  s!"switch={sw} wdirect={wd} wscan={ws} wparent={wp} retry={re} finish={fi} fibers={vm.fibers.length} out={vm.out.length}"
+  let pa := count vm (fun | .premature _ => true | _ => false)
+  s!"switch={sw} wdirect={wd} wscan={ws} wparent={wp} retry={re} finish={fi} fibers={vm.fibers.length} out={vm.out.length} premature={pa}"
 
 def fuel : Nat := 4000
 
